@@ -49,7 +49,12 @@ const (
 func newC14Cast() *c14Cast {
 	p := world.Std()
 	k := &c14Cast{p: p, caA: p.CA}
-	k.caB = world.Issue(p.Root, world.CertOpt{CN: "verif issuing CA B", IsCA: true, KeyKind: "ec", KeyIdx: 6, Serial: big.NewInt(61)})
+	// issuer B's name is distinct from A's on the wire (an extra leading CN and another attribute order) but renders
+	// the same under the lossy pkix.Name form: "same issuer" means the encoded name
+	k.caB = world.Issue(p.Root, world.CertOpt{CN: "verif issuing CA B", RawSubject: world.RawDN("CN", "backup", "CN", "verif issuing CA", "O", "verif"), IsCA: true, KeyKind: "ec", KeyIdx: 6, Serial: big.NewInt(61)})
+	if k.caB.Cert.Subject.String() != k.caA.Cert.Subject.String() || string(k.caB.Cert.RawSubject) == string(k.caA.Cert.RawSubject) {
+		panic("c14 cast: issuer names are expected to differ encoded and to collide as pkix.Name: " + k.caB.Cert.Subject.String() + " / " + k.caA.Cert.Subject.String())
+	}
 	subj := pkix.Name{CommonName: "shared subject", Organization: []string{"verif"}}
 	k.c1 = world.Issue(k.caA, world.CertOpt{Subject: &subj, Serial: big.NewInt(5000), KeyKind: "ec", KeyIdx: 5, OCSP: []string{c14URLA}})
 	k.c1b = world.Issue(k.caB, world.CertOpt{Subject: &subj, Serial: big.NewInt(5000), KeyKind: "ec", KeyIdx: 7, OCSP: []string{c14URLB}})
@@ -84,7 +89,7 @@ func (k *c14Cast) run(cfg c14Cfg, hist []int) (key string, viols []c14Viol, trac
 		lastFailed := map[int]bool{} // cert index -> previous lookup's query failed
 		model := map[string]*c14ModelEntry{}
 		mkey := func(ci int) string {
-			return k.issuers[ci].Cert.Subject.String() + "#" + k.certs[ci].Cert.SerialNumber.String()
+			return fmt.Sprintf("%x#%s", k.issuers[ci].Cert.RawSubject, k.certs[ci].Cert.SerialNumber)
 		}
 		serve := func() {
 			for ci := range k.certs {
@@ -258,7 +263,7 @@ func (k *c14Cast) run(cfg c14Cfg, hist []int) (key string, viols []c14Viol, trac
 			case sr >= m.L/2:
 				rb = "read<=L"
 			}
-			parts = append(parts, fmt.Sprintf("%s:%s:%s:%s:%v", mk[len(mk)-12:], m.Status, ab, rb, age.Truncate(time.Minute)))
+			parts = append(parts, fmt.Sprintf("%s:%s:%s:%s:%v", mk, m.Status, ab, rb, age.Truncate(time.Minute)))
 		}
 		sort.Strings(parts)
 		var lf []string
